@@ -10,6 +10,10 @@ func HarnessC05e() {
 	cfg := symConfig(st, mkCache(verifBoundOr("CACHE", 0)))
 	cfg.ValuesLike = []byte{}
 	cfg.Unmarshal = bytesCodecUnmarshal
+	if verifBoundOr("REUSE", 0) == 1 {
+		// an unmarshaler that fills the target in place when it has capacity (as encoding/json does for slices)
+		cfg.Unmarshal = bytesCodecUnmarshalReuse
+	}
 	t, err := NewRoot(&CreateRemoteOptions{BranchFactor: bf}).LoadMast(vctx, cfg)
 	verifAssert("C01.new.err", err == nil)
 	md := &symModel{}
